@@ -44,7 +44,7 @@ RULE = ("the real RWLock runs on real threads whose mutex class is replaced (ins
         "least one context switch at a yield point")
 ASSUMPTIONS = ["threading.Lock semantics modelled by the virtual lock (mutual exclusion, release by any thread, no reentrancy)",
                "schedules beyond the delay bound / the sampled random ones are not covered", "CPython threading primitives used by the scheduler itself"]
-REQUIRED = {"quick": ["handoff_probe", "long_run", "schedule.mixed_roles", "independence_probe", "schedule.two_locks", "schedule.systematic", "schedule.random", "schedule.pct", "share_probe", "quiescence", "free_running",
+REQUIRED = {"quick": ["forked", "handoff_probe", "long_run", "schedule.mixed_roles", "independence_probe", "schedule.two_locks", "schedule.systematic", "schedule.random", "schedule.pct", "share_probe", "quiescence", "free_running",
                       "occupancy.RR", "occupancy.W", "occupancy.R", "blocked_events", "max_readers_ge2"]}
 WATCHDOG_S = {"quick": 600, "thorough": 3000}
 
@@ -53,7 +53,7 @@ CONFIGS = [(r, w) for r in range(0, 4) for w in range(0, 3) if r + w >= 2]
 
 def shards(tier, seed):
     q = tier == "quick"
-    out = []
+    out = [("forked_child", dict(kind="forked", rounds=150 if q else 3000))]
     for r, w in CONFIGS:
         out.append(("sys_r%dw%d" % (r, w), dict(kind="systematic", r=r, w=w, rounds=1, bound=2 if q else 3, limit=1500 if q else 60000, lines=False)))
     if not q:
@@ -659,9 +659,106 @@ def run(ctx, name, kind, **kw):
                     ctx.check(not probs, "not_quiescent_after_release", "independence probe: %s" % probs, dict(decisions=s.decisions))
         elif kind == "free":
             free_running(ctx, rng, kw["rounds"])
+        elif kind == "forked":
+            forked_child(ctx, rng, kw["rounds"])
     finally:
         S.VLock.sched = None
         _restore()
+
+
+def exclusion_stress(lock, rounds, seed, nthreads=6):
+    """Real threads on a real lock object; shadow occupancy under its own mutex (updated after acquire / before release: a subset of the real
+    holders).  Returns plain data (also usable across a pipe)."""
+    import random
+    mu = threading.Lock()
+    inside, bad, excs, done = [], [], [], []
+    maxr = [0]
+
+    def worker(kind, name, sd):
+        r = random.Random(sd)
+        try:
+            for _ in range(rounds):
+                (lock.reader_acquire if kind == "R" else lock.writer_acquire)()
+                with mu:
+                    inside.append((kind, name))
+                    kinds = [k for k, _ in inside]
+                    maxr[0] = max(maxr[0], kinds.count("R"))
+                    if "W" in kinds and len(kinds) > 1 and not bad:
+                        bad.append(list(inside))
+                if r.random() < 0.5:
+                    time.sleep(0)
+                with mu:
+                    inside.remove((kind, name))
+                (lock.reader_release if kind == "R" else lock.writer_release)()
+            done.append(name)
+        except BaseException as e:  # noqa
+            excs.append("%s in %s: %s: %s" % (kind, name, type(e).__name__, e))
+    ths = [threading.Thread(target=worker, args=("R" if i < nthreads // 2 else "W", "T%d" % i, seed + i), daemon=True) for i in range(nthreads)]
+    t0 = time.time()
+    for t in ths:
+        t.start()
+    for t in ths:
+        t.join(max(0.1, 40 - (time.time() - t0)))
+    return dict(bad=bad[:1], excs=excs[:3], finished=len(done) + len(excs), threads=nthreads, max_readers=maxr[0])
+
+
+def forked_child(ctx, rng, rounds):
+    """A lock object created (and used) before os.fork() and then used by several threads of the CHILD process - what a pre-forking server does
+    with module-level objects.  Nobody holds the lock at the moment of the fork.  The child reports through a pipe; the parent's copy is
+    exercised the same way afterwards.  Real threading.Lock, so monitor 1 (occupancy) and 'no exception' only; a child that does not report
+    within 60 s is inconclusive (wall clock is not a verdict)."""
+    import json
+    import os
+    import select
+    import sys
+    old = sys.getswitchinterval()
+    sys.setswitchinterval(1e-5)
+    try:
+        for used_before in (False, True):
+            lock = RW_REAL.RWLock()
+            if used_before:
+                lock.reader_acquire(); lock.reader_release(); lock.writer_acquire(); lock.writer_release()
+            rd, wr = os.pipe()
+            seed = rng.getrandbits(30)
+            pid = os.fork()
+            if pid == 0:
+                try:
+                    os.close(rd)
+                    res = exclusion_stress(lock, rounds, seed)
+                    os.write(wr, json.dumps(res).encode())
+                finally:
+                    os._exit(0)
+            os.close(wr)
+            buf = b""
+            t0 = time.time()
+            while time.time() - t0 < 60:
+                if select.select([rd], [], [], 1.0)[0]:
+                    chunk = os.read(rd, 65536)
+                    if not chunk:
+                        break
+                    buf += chunk
+            os.close(rd)
+            try:
+                os.kill(pid, 9)
+            except OSError:
+                pass
+            os.waitpid(pid, 0)
+            for who, res in (("forked child", json.loads(buf.decode()) if buf else None), ("parent after the fork", exclusion_stress(lock, rounds, seed + 100))):
+                if res is None:
+                    ctx.count("watchdog_inconclusive")
+                    ctx.note("forked child did not report within 60 s (inconclusive)")
+                    continue
+                ctx.case("forked", key="%s|used_before=%s" % (who, used_before), n=rounds * res["threads"])
+                ctx.count("forked_max_readers", res["max_readers"])
+                if res["bad"]:
+                    ctx.violation("mutual_exclusion_broken", "%s, lock created %sbefore os.fork(): writer inside together with others: %r" % (who, "and used " if used_before else "", res["bad"][0]), dict(inside=res["bad"][0], who=who))
+                if res["excs"]:
+                    ctx.violation("lock_operation_raises", "%s, lock created %sbefore os.fork(): %s" % (who, "and used " if used_before else "", res["excs"][0]), dict(excs=res["excs"], who=who))
+                if res["finished"] != res["threads"]:
+                    ctx.count("watchdog_inconclusive")
+                    ctx.note("%s: %d of %d threads finished in 40 s (inconclusive)" % (who, res["finished"], res["threads"]))
+    finally:
+        sys.setswitchinterval(old)
 
 
 def free_running(ctx, rng, rounds):
